@@ -267,10 +267,13 @@ class RawMeshData:
             for e in self.id_edges: hard_edges[e] = True
         
         edge_set = set([utils.keyify(e) for e in self.edges])
+        N = len(self.vertices)
         for f in self.faces:
             nf = len(f)
             for i in range(nf):
                 edge = utils.keyify(f[i], f[(i+1)%nf])
+                if edge[0]==edge[1] or not (0<=edge[0] and edge[1]<N):
+                    continue # side of a degenerate face (repeated or non-existent vertex) : not an edge
                 if edge not in edge_set:
                     edge_set.add(edge)
                     self.edges.append(edge)
